@@ -17,7 +17,7 @@ CHECKS = {
         text="200k (quick) / 5M (thorough) generated snapshot sequences (joins, leaves, rejoins, address changes, addresses shared or handed over between ids), subscription moments and read patterns on one real node.",
         note="Snapshots are injected where chitchat would publish them (H-members). The recorded finding 'watch-latest-only' is excluded by its exact signature (every observed delta correct AND the subscriber missed a delta); any wrong delta is still a violation.", ref="3 C16"),
     "C19": dict(engine="E3-cluster", technique=PBT + " (differential: state received through the real service+client vs independently built reference set, probe grid of further operations)",
-        text="60k (quick) / 3M (thorough) interleavings of writes and state requests on a store with write latency (a reply labelled with the final change stamp must carry the final state), plus 6000 (quick) / 300k (thorough) sender states up to 20000 entries (live or tombstones) fetched with the real get_state path at the end and after generated build stages (ops, purges, bulk loads), compared on live ids, tombstones, stamps, will_apply probes and one further operation; 3000 reply frames with every bit flip / truncation refused.",
+        text="60k (quick) / 3M (thorough) interleavings of writes and state requests on a store with write latency (a reply labelled with the final change stamp must carry the final state), plus 16 (quick) / 400 (thorough) states of 70 000 - 1 200 000 entries (1-20 MB on the wire), plus 6000 (quick) / 300k (thorough) sender states up to 20000 entries (live or tombstones) fetched with the real get_state path at the end and after generated build stages (ops, purges, bulk loads), compared on live ids, tombstones, stamps, will_apply probes and one further operation; 3000 reply frames with every bit flip / truncation refused.",
         note="The reference set is built by applying the same operations directly to an OrSWotSet of the harness (trusts the CRDT, which C03-C05 cover).", ref="3 C19"),
     "C11": dict(engine="E6-clock", technique=PBT + " (generated task scripts with barriers; schedule owned on a current-thread runtime, sampled on 4 workers)",
         text="60k generated multi-task scripts on a current-thread runtime where the interleaving is a function of the generated yields, plus 500 x 8 runs on a 4-worker runtime, plus 4000 crowds of 1050-2600 tasks (more callers than the clock's 1000-slot request queue); uniqueness, per-task monotonicity and register->get causality (program order and barrier chains) are checked on every run.",
@@ -29,7 +29,7 @@ CHECKS = {
         text="20k MemStore, 5k SQLite in-memory, 3k SQLite file and 5k LMDB call sequences per quick run (x30 thorough), every read call compared with the model, a full read-back (iter_metadata, get of every id, multi_get, keyspace list before / between / after the keyspace reads) after every call in two thirds of the cases and only after a generated subset of the calls in the others (so that reading cannot mask a state), and close/reopen at generated points.",
         note="Scratch databases live in /dev/shm (tmpfs): fsync durability against power loss is not examined, only close/reopen.", ref="3 C17"),
     "C02": dict(engine="E2-actor+E5-storage", technique=PBT + " (model-based: storage contents vs deserialised set after every request, injected storage faults)",
-        text="Randomised request histories (300k quick / 10M thorough) against the real KeyspaceGroup actors on an inspectable fault-injecting store; set and store are compared after every request; plus 6k SQLite-file and 20k LMDB histories (x30 thorough) on the real backends without fault injection, compared after every request and again after close / reopen / reload. Exploration: finds counterexamples, proves nothing.",
+        text="Randomised request histories (300k quick / 10M thorough) against the real KeyspaceGroup actors on an inspectable fault-injecting store; set and store are compared after every request (in a third of the cases runs of 2-4 requests are issued together and judged when all are answered; in two cases out of five the store lands its writes 0-7 ms late, varying from call to call); plus 6k SQLite-file and 20k LMDB histories (x30 thorough) on the real backends without fault injection, compared after every request (metadata AND documents read back: a live id must be readable at its stamp, a tombstoned id must not; ids spread over the whole u64 range in half of the cases) and again after close / reopen / reload. Exploration: finds counterexamples, proves nothing.",
         note="Trusts ModelStore (harness Storage implementation that honours the BulkMutationError contract) and the view obtained through Serialize + diff-against-empty.", ref="3 C02"),
     "C03": dict(engine="E1-pure", technique=PBT + " (algebraic laws of merge on generated replica triples)",
         text="3M (quick) / 300M (thorough) generated replica triples satisfying the statement's precondition by construction; commutativity, associativity, idempotence, schedule independence and lookup agreement are checked on each.",
@@ -41,10 +41,10 @@ CHECKS = {
         text="6M (quick) / 400M (thorough) generated replica pairs incl. purged ones and, one case in five, replicas with arbitrary gaps on an exact 1 h grid (stamps exactly on a cut-off); the diff is compared with an independently computed expectation and, inside the repair clause's precondition, applied the way the keyspace actor applies it.",
         note="The purge cut-off of a replica is observed through a will_apply probe on an unused key (the statement's 'purge cut-off for that origin').", ref="3 C05"),
     "C07": dict(engine="E2-actor+E3-cluster+E5-storage", technique=PBT + " (crash-point injection incl. inside a request, rebuilt state vs storage; node restart inside a running cluster; restarts on the real SQLite / LMDB backends)",
-        text="100k (quick) / 5M (thorough) histories with a generated stop point between or inside requests (storage write done, set not updated), one or two restarts; the rebuilt set is compared with storage and with what was acknowledged. Plus 20k / 1M cluster histories in which one of 2-4 real nodes is stopped and restarted on its storage while the others keep working (rebuilt == storage, then LWW convergence), plus 6k SQLite-file and 20k LMDB histories of 1-3 node lives on the real backends (close, reopen, load_states_from_storage, rebuilt == iter_metadata, acknowledged entries survive).",
+        text="100k (quick) / 5M (thorough) histories with a generated stop point between or inside requests (storage write done, set not updated), one or two restarts; the rebuilt set is compared with storage and with what was acknowledged. Plus 20k / 1M cluster histories in which one of 2-4 real nodes is stopped and restarted on its storage while the others keep working (rebuilt == storage, then LWW convergence), plus 6k SQLite-file and 20k LMDB histories of 1-3 node lives on the real backends (close, reopen, load_states_from_storage, rebuilt == iter_metadata, every rebuilt live id readable at its stamp and no tombstoned id readable, acknowledged entries survive as what they were - a live document does not come back as a tombstone of the same stamp; ids over the whole u64 range in half of the cases).",
         note="Process death is modelled by fencing the old storage handle (model store) or by dropping the runtime and every handle (real backends, stops between requests only); fsync durability of the bundled backends is outside (tmpfs). A tombstone the group's start-up purge may legitimately drop (older than the newest entry by the forgiveness period, gone from set and storage alike) is not counted as lost.", ref="3 C07"),
     "C08": dict(engine="E1-pure+E2-actor", technique=PBT + " (invariants around purge_old_deletes on generated hour-scale histories)",
-        text="1M (quick) / 60M (thorough) single-replica histories spanning hours with purges at generated points (live set unchanged, only tombstones returned and removed, never a live id, stale operations from the deleting node refused ever after), plus 100k / 5M cluster timelines on real keyspace actors (timely deliveries by construction, direct and repair paths, clock skew) run twice, with and without purge calls: identical documents on every replica and equal to the LWW model; the store counts any attempt to purge a live id.",
+        text="1M (quick) / 60M (thorough) single-replica histories spanning hours with purges at generated points (live set unchanged, only tombstones returned and removed, never a live id, stale operations from the deleting node refused ever after), plus 100k / 5M cluster timelines on real keyspace actors (timely deliveries by construction, direct and repair paths, clock skew) run twice, with and without purge calls: identical documents on every replica and equal to the LWW model; the store counts any attempt to purge a live id; in two timelines out of five the stores land their writes 0-7 ms late, varying from call to call.",
         note="Timeliness (delay + skew < forgiveness period) holds by construction of the timelines; the hourly purge task of a full node is not used, purge calls are generated instead.", ref="3 C08"),
     "C09": dict(engine="E1-pure", technique=PBT + " (stateful send/recv sequences with an injected wall clock, invariant after every call)",
         text="2M (quick) / 200M (thorough) sequences of up to 60 calls with stalls, backward jumps and drift-limit boundary values of the wall clock and of remote stamps.",
